@@ -56,11 +56,18 @@ def parseGlobalD (s : String) : Option Global :=
     -- the kind field may carry the optional keywords of the global variable: `g~<i>,<i>…` / `c~<i>,<i>…` (positions in `Whole.kGLead`, in the order written)
     let kparts := k.splitOn "~"
     let lead := ((kparts.getD 1 "").splitOn ",").filterMap String.toNat?
+    -- …and the clauses behind the initializer: `~s<hex>;p<hex>;l<n>` (section, partition, align)
+    let tail : GTail := ((kparts.getD 2 "").splitOn ";").foldl (fun t c =>
+      match c.toList with
+      | 's' :: r => { t with sect := argHex (String.ofList r) }
+      | 'p' :: r => { t with partition := argHex (String.ofList r) }
+      | 'l' :: r => { t with align := ((String.ofList r).toNat?).getD 0 }
+      | _ => t) {}
     let cs := tc.toList
     match parseTy (cs.length + 2) cs with
     | some (t, '=' :: r) =>
       (match parseConstD (r.length + 2) r with
-       | some (c, []) => some ⟨argHex n, kparts.headD "" == "c", t, c, lead⟩
+       | some (c, []) => some ⟨argHex n, kparts.headD "" == "c", t, c, lead, tail⟩
        | _ => none)
     | _ => none
   | _ => none
